@@ -9,6 +9,7 @@ import (
 	"encoding/binary"
 	"errors"
 	"fmt"
+	"slices"
 	"sort"
 
 	"github.com/go-git/go-billy/v6"
@@ -119,7 +120,27 @@ func (s *PackScanner) Get(h plumbing.Hash) (plumbing.EncodedObject, error) {
 	if err != nil {
 		return nil, err
 	}
-	return s.getObject(h, offset)
+	return s.getObject(h, offset, nil)
+}
+
+// getBase is Get for the base of a REF delta; chain holds the pack offsets
+// of the delta objects that led here.
+func (s *PackScanner) getBase(h plumbing.Hash, chain []int64) (plumbing.EncodedObject, error) {
+	offset, err := s.FindOffset(h)
+	if err != nil {
+		return nil, err
+	}
+	return s.getObject(h, offset, chain)
+}
+
+// getBaseByOffset is GetByOffset for the base of an OFS delta; chain holds
+// the pack offsets of the delta objects that led here.
+func (s *PackScanner) getBaseByOffset(offset uint64, chain []int64) (plumbing.EncodedObject, error) {
+	h, err := s.FindHash(offset)
+	if err != nil {
+		return nil, err
+	}
+	return s.getObject(h, offset, chain)
 }
 
 // GetByOffset returns the encoded object at the given pack offset.
@@ -128,11 +149,27 @@ func (s *PackScanner) GetByOffset(offset uint64) (plumbing.EncodedObject, error)
 	if err != nil {
 		return nil, err
 	}
-	return s.getObject(h, offset)
+	return s.getObject(h, offset, nil)
 }
 
+// maxDeltaChainDepth matches the bound of packfile.Parser (upstream Git's
+// OE_DEPTH_BITS); a longer delta chain is malformed input.
+const maxDeltaChainDepth = 4095
+
 // getObject retrieves object metadata from the pack at the given offset.
-func (s *PackScanner) getObject(h plumbing.Hash, offset uint64) (plumbing.EncodedObject, error) {
+// chain holds the pack offsets of the delta objects whose bases were followed
+// to reach this one (nil for the object the caller asked for). The idx is
+// untrusted: it can make the base id of a REF delta resolve to the delta
+// itself or to one of its descendants, which without this check recurses
+// until the stack overflows.
+func (s *PackScanner) getObject(h plumbing.Hash, offset uint64, chain []int64) (plumbing.EncodedObject, error) {
+	if slices.Contains(chain, int64(offset)) {
+		return nil, fmt.Errorf("%w: delta cycle at offset %d", packfile.ErrMalformedPackfile, offset)
+	}
+	if len(chain) > maxDeltaChainDepth {
+		return nil, fmt.Errorf("%w: delta chain deeper than %d", packfile.ErrMalformedPackfile, maxDeltaChainDepth)
+	}
+
 	// Compared as uint64: the offset comes from the idx and may be >= 2^63,
 	// which would turn int(offset+1) negative and slip past the check.
 	if offset >= uint64(len(s.packMmap)) || offset+1 >= uint64(len(s.packMmap)) {
@@ -150,7 +187,7 @@ func (s *PackScanner) getObject(h plumbing.Hash, offset uint64) (plumbing.Encode
 
 	// For easier user-consumption, auto resolve is being set to true.
 	// This should be reviewed as not always this is needed.
-	return newOndemandObject(h, packutil.ObjectType(typ), int64(offset), int64(size), s, true), nil
+	return newChainedOndemandObject(h, packutil.ObjectType(typ), int64(offset), int64(size), s, true, chain), nil
 }
 
 func (s *PackScanner) lookupOffset(want uint64) (int, bool) {
